@@ -402,6 +402,39 @@ theorem marked_total_bound_partial (t : Tree) (e : Edit) (h : Nat)
   ⟨fun p s s' o _ hs hs' ho hne => rebuilt_in_level p t e s s' o hn hle hs hs' ho hne,
    reach_total_bound t e.start.bytes e.old_end.bytes hle ht h⟩
 
+/-- `uncovered_split`: the nodes a re-parse had to lex or create (uncovered nodes of the new tree,
+down to depth `h`) are at most the nodes that reach the window plus the stray ones. -/
+theorem uncovered_split (sh : Tree → Bool) (t : Tree) (S E : Nat) :
+    ∀ h, uncoveredTotal sh t h ≤ reachTotal t S E h + strayTotal sh t S E h
+  | 0 => by
+    have := uncovered_level_split sh t 0 S E
+    simp only [uncoveredTotal, reachTotal, strayTotal]; omega
+  | h + 1 => by
+    have ih := uncovered_split sh t S E h
+    have := uncovered_level_split sh t (h + 1) S E
+    simp only [uncoveredTotal, reachTotal, strayTotal]; omega
+
+/-- `reparse_work_bound_partial` — "re-parse work after a small edit is O(depth + edit width), not
+O(document)", as far as it can be stated on the result of the re-parse: let `t` be the NEW tree,
+`[S, E]` the edit in new coordinates, `sh` the nodes taken over from the old tree.  The uncovered
+nodes — leaves = tokens the lexer had to deliver (C01 `reused_not_lexed`), inner nodes = nodes the
+parser had to create — number at most
+`(h + 1) · ((E − S) + λ + 2) + Z + stray`, where `stray` counts uncovered nodes that do not even
+reach the edit.  Under the DECIDABLE premise `stray = 0` ("everything the edit does not reach was
+reused": no fragile repeat spine, no first-leaf refusals, no scanner-state skips) this is the bound
+the property wants; the premise and `stray` are evaluated on every real re-parse.
+
+FULL STATEMENT (OPEN): `stray = 0` (or `stray ≤ c·depth`) as a THEOREM about the reuse gate inside
+the LR machine for tables whose repeat reductions are not fragile and whose first leaves are
+reusable — needs the iterator + gate + `breakdown_top_of_stack` as a machine (C01's `IncrRun` takes
+the reuse events as given). -/
+theorem reparse_work_bound_partial (sh : Tree → Bool) (t : Tree) (S E h : Nat)
+    (hSE : S ≤ E) (ht : tiles t = true) :
+    uncoveredTotal sh t h ≤ (h + 1) * ((E - S) + maxLa t + 2) + zerosTotal t h + strayTotal sh t S E h := by
+  have h1 := uncovered_split sh t S E h
+  have h2 := reach_total_bound t S E hSE ht h
+  omega
+
 /-- `lex_calls_bound`: in every incremental run of the LR machine the number of lexer calls is at
 most the number of tokens consumed minus the tokens that lie below reused subtrees. -/
 theorem lex_calls_bound (T : C01.LR.Table) (bottom l r : Nat) (c d : C01.LR.Stack × List C01.Tok)
@@ -451,5 +484,10 @@ example : countReachKids [leaf2 1, leaf2 2, leaf2 3] 0 3 4 = 2 ∧
 leaves), the bound is `(1+1)·((4−3)+0+2) + 0 = 6`. -/
 example : tiles root3 = true ∧ noCol root3 = true ∧ height root3 = 1 ∧ maxLa root3 = 0 ∧
     reachTotal root3 3 4 1 = 3 ∧ zerosTotal root3 1 = 0 := by decide
+
+/-- `reparse_work_bound_partial` on the concrete tree with the middle leaf fresh and the outer
+leaves shared: 2 uncovered nodes (root, middle leaf), no stray node. -/
+example : let sh : Tree → Bool := fun t => t.data.symbol == 1 || t.data.symbol == 3
+    uncoveredTotal sh root3 1 = 2 ∧ strayTotal sh root3 3 4 1 = 0 := by decide
 
 end TsVerif.C12
